@@ -6,22 +6,29 @@ package drummer
 // Real code driven: NodehostAPI.GetSession / CloseSession / Propose / Read, ToPBSession,
 // ToNodeHostSession, grpcError, GRPCError on real single-replica dragonboat NodeHosts (MemFS, in-memory
 // chan transport: no OS port is opened) hosting harness-defined state machines of the three types.
-// Unexported identifiers used: the NodehostAPI literal (fields nh, supportCS), grpcError.
+// Facade objects are made by the public constructor NewNodehostAPI (listening on 127.0.0.1:0, never dialled, stopped
+// at the end of the block): no field of NodehostAPI is named here. Unexported identifiers used: grpcError, updatePBSession.
 //
 // Input grammar (one token line each; '#' comment lines ignored):
 //   NH                        begin of a NodeHost block (blocks are independent, run in parallel)
-//   A <a>                     new facade object a  (NodehostAPI{nh: nh, supportCS: {}})
+//   A <a>                     new facade object a  (NewNodehostAPI on this NodeHost)
 //   S <shard> <type>          start a single-replica shard, type 1 regular / 2 concurrent / 3 on-disk
 //   Q <a> <shard>             GetSession through facade a (own goroutine, under recover), then CloseSession
 //   P <a> <shard> <f|l> <hex> propose through the facade (f) or locally (l: nh.SyncPropose)
 //   R <a> <shard> <f|l> <hex> linearizable read through the facade (f) or locally (l: nh.SyncRead)
 //   X <a> <shard> <f|l> <op>  error-path operation with identical arguments on both paths (nodeadline pastdeadline
 //                             invalidsession toobig canceledread nodeadline-read plain-propose plain-read)
+//   K <shard> <d|n|k>         stop the shard (NodeHost.StopShard); d: the data of the stopped replica is removed
+//                             (SyncRemoveData), the next S of this shard id is a new replica id; n: data kept, the next
+//                             S is a new replica id; k: data kept, the next S restarts the same replica (same type)
+//   E <a> <shard> <f|l> <k>   read whose query makes the state machine's Lookup return error value no. k of
+//                             vfErrAlphabet (an error of an arbitrary dynamic type, handed back unchanged by SyncRead)
 //   C                         close the NodeHost (later operations observe a closed NodeHost)
 //   END                       end of block
 //   T <f1> <f2> ...           session conversion on a session whose uint64 fields (in declaration
 //                             order) are the given values, both directions
-//   ERRS                      evaluate grpcError/GRPCError on every enumerated error value
+//   ERRS                      evaluate grpcError/GRPCError on every enumerated error value (the dragonboat/context
+//                             values and vfErrAlphabet: wrapped, pointer, struct, slice, map, func-holding ... typed)
 //   WIRE <shard> <type>       one NodeHost behind a real gRPC listener (NewNodehostAPI) and client
 // Output: "<lineno> <tokens...>" per executed input line (lineno = 1-based input line).
 
@@ -51,6 +58,7 @@ import (
 	"github.com/lni/dragonboat/v4/config"
 	"github.com/lni/dragonboat/v4/logger"
 	chantrans "github.com/lni/dragonboat/v4/plugin/chan"
+	"github.com/lni/dragonboat/v4/raftio"
 	sm "github.com/lni/dragonboat/v4/statemachine"
 	pb "github.com/lni/drummer/v3/multiraftpb"
 	"github.com/lni/vfs"
@@ -137,14 +145,23 @@ func vfLookup(c *vfCore, q interface{}) (interface{}, error) {
 	if !ok {
 		return nil, errors.New("bad query type")
 	}
+	// "E:<k>": the state machine rejects the query with error value no. k of the alphabet
+	if len(b) > 2 && b[0] == 'E' && b[1] == ':' {
+		if k, err := strconv.Atoi(string(b[2:])); err == nil {
+			al := vfErrAlphabet()
+			if k >= 0 && k < len(al) {
+				return nil, al[k].err
+			}
+		}
+	}
 	return c.query(b), nil
 }
 
 type vfRegSM struct{ c vfCore }
 
-func (s *vfRegSM) Update(e sm.Entry) (sm.Result, error)         { return s.c.apply(e.Cmd), nil }
-func (s *vfRegSM) Lookup(q interface{}) (interface{}, error)    { return vfLookup(&s.c, q) }
-func (s *vfRegSM) Close() error                                 { return nil }
+func (s *vfRegSM) Update(e sm.Entry) (sm.Result, error)      { return s.c.apply(e.Cmd), nil }
+func (s *vfRegSM) Lookup(q interface{}) (interface{}, error) { return vfLookup(&s.c, q) }
+func (s *vfRegSM) Close() error                              { return nil }
 func (s *vfRegSM) SaveSnapshot(w io.Writer, _ sm.ISnapshotFileCollection, _ <-chan struct{}) error {
 	return s.c.save(w)
 }
@@ -213,6 +230,9 @@ func vfTok(s string) string {
 		if r == ' ' || r == '\n' || r == '\t' || r == '\r' {
 			return '_'
 		}
+		if r < 32 || r > 126 {
+			return '?'
+		}
 		return r
 	}, s)
 	if len(s) > 160 {
@@ -269,6 +289,191 @@ func vfErrTable() []vfNamedErr {
 		{"Other:sameTextAsTimeout", errors.New(dragonboat.ErrTimeout.Error())},
 		{"Other:io.EOF", io.EOF},
 	}
+}
+
+// ---- error values of arbitrary dynamic types ("every error is mapped to a defined status code": error is an
+// interface, its values are not only the *errors.errorString values of the dragonboat/context table).
+// Error() of every type below is total (the nil-pointer value included); errors whose Error() panics are out of scope.
+
+type vfPtrErr struct{ msg string } // pointer receiver; the nil pointer is a legal value
+
+func (e *vfPtrErr) Error() string {
+	if e == nil {
+		return "nil *vfPtrErr"
+	}
+	return e.msg
+}
+
+type vfValErr struct { // comparable struct, value receiver
+	code int
+	msg  string
+}
+
+func (e vfValErr) Error() string { return fmt.Sprintf("%s (%d)", e.msg, e.code) }
+
+type vfSliceErr []string // slice-typed error (like go/scanner.ErrorList, validation error lists)
+
+func (e vfSliceErr) Error() string { return "problems: " + strings.Join(e, "; ") }
+
+type vfMapErr map[string]string // map-typed error (field -> problem)
+
+func (e vfMapErr) Error() string {
+	ks := make([]string, 0, len(e))
+	for k := range e {
+		ks = append(ks, k+"="+e[k])
+	}
+	sort.Strings(ks)
+	return "fields: " + strings.Join(ks, ",")
+}
+
+type vfStructSliceErr struct { // value struct holding a slice
+	op    string
+	items []string
+}
+
+func (e vfStructSliceErr) Error() string { return e.op + ": " + strings.Join(e.items, "|") }
+
+type vfStructMapErr struct { // value struct holding a map
+	op string
+	m  map[string]int
+}
+
+func (e vfStructMapErr) Error() string { return fmt.Sprintf("%s: %d entries", e.op, len(e.m)) }
+
+type vfStructFuncErr struct{ f func() string } // value struct holding a func
+
+func (e vfStructFuncErr) Error() string {
+	if e.f == nil {
+		return "no text"
+	}
+	return e.f()
+}
+
+type vfIfaceErr struct { // comparable static type; whether a value can be compared depends on what it holds
+	op     string
+	detail interface{}
+}
+
+func (e vfIfaceErr) Error() string { return fmt.Sprintf("%s: %v", e.op, e.detail) }
+
+type vfArrayErr [2]string // comparable array
+
+func (e vfArrayErr) Error() string { return e[0] + "/" + e[1] }
+
+type vfArrayOfSliceErr [1][]byte // array of slices
+
+func (e vfArrayOfSliceErr) Error() string { return "bytes " + hex.EncodeToString(e[0]) }
+
+type vfStringErr string
+
+func (e vfStringErr) Error() string { return string(e) }
+
+type vfIntErr int
+
+func (e vfIntErr) Error() string { return "errno " + strconv.Itoa(int(e)) }
+
+type vfEmbedErr struct{ error } // embeds (does not equal) another error value
+
+type vfIsErr struct{ target error } // claims identity through errors.Is only
+
+func (e *vfIsErr) Error() string        { return "like " + e.target.Error() }
+func (e *vfIsErr) Is(target error) bool { return target == e.target }
+func (e *vfIsErr) Unwrap() error        { return e.target }
+
+type vfNestedErr struct { // uncomparable two levels down
+	op    string
+	inner struct{ parts [2]vfStructSliceErr }
+}
+
+func (e vfNestedErr) Error() string { return e.op + " nested" }
+
+var vfSharedPtrErr = &vfPtrErr{"shared pointer error"}
+
+// vfErrAlphabet: names are the interface to python ("Dyn:" = not a value of the table, whatever its type or text);
+// the first group are values the table lists, coming from somewhere else than dragonboat (a state machine's Lookup).
+func vfErrAlphabet() []vfNamedErr {
+	long := strings.Repeat("long error text ", 700)
+	return []vfNamedErr{
+		{"ErrShardNotFound", dragonboat.ErrShardNotFound},
+		{"ErrInvalidSession", dragonboat.ErrInvalidSession},
+		{"ErrClosed", dragonboat.ErrClosed},
+		{"ErrCanceled", dragonboat.ErrCanceled},
+		{"ContextCanceled", context.Canceled},
+		{"ErrPayloadTooBig", dragonboat.ErrPayloadTooBig},
+		{"Dyn:wrapped", fmt.Errorf("lookup failed: %w", dragonboat.ErrShardNotFound)},
+		{"Dyn:wrappedTwice", fmt.Errorf("outer: %w", fmt.Errorf("inner: %w", context.DeadlineExceeded))},
+		{"Dyn:joined", errors.Join(dragonboat.ErrTimeout, io.EOF)},
+		{"Dyn:pointer", &vfPtrErr{"custom pointer error"}},
+		{"Dyn:pointerShared", vfSharedPtrErr},
+		{"Dyn:pointerNil", (*vfPtrErr)(nil)},
+		{"Dyn:struct", vfValErr{7, "custom struct error"}},
+		{"Dyn:structZero", vfValErr{}},
+		{"Dyn:slice", vfSliceErr{"empty key", "key too long"}},
+		{"Dyn:sliceNil", vfSliceErr(nil)},
+		{"Dyn:sliceEmpty", vfSliceErr{}},
+		{"Dyn:map", vfMapErr{"key": "missing", "ttl": "negative"}},
+		{"Dyn:mapNil", vfMapErr(nil)},
+		{"Dyn:structWithSlice", vfStructSliceErr{"validate", []string{"a", "b"}}},
+		{"Dyn:structWithNilSlice", vfStructSliceErr{"validate", nil}},
+		{"Dyn:structWithMap", vfStructMapErr{"index", map[string]int{"x": 1}}},
+		{"Dyn:structWithFunc", vfStructFuncErr{func() string { return "lazy text" }}},
+		{"Dyn:structWithNilFunc", vfStructFuncErr{}},
+		{"Dyn:ifaceHoldingInt", vfIfaceErr{"parse", 42}},
+		{"Dyn:ifaceHoldingSlice", vfIfaceErr{"parse", []int{1, 2}}},
+		{"Dyn:ifaceHoldingMap", vfIfaceErr{"parse", map[int]int{1: 2}}},
+		{"Dyn:ifaceHoldingNil", vfIfaceErr{"parse", nil}},
+		{"Dyn:array", vfArrayErr{"a", "b"}},
+		{"Dyn:arrayOfSlice", vfArrayOfSliceErr{[]byte{1, 2, 3}}},
+		{"Dyn:string", vfStringErr("string typed error")},
+		{"Dyn:stringSameTextAsNotFound", vfStringErr(dragonboat.ErrShardNotFound.Error())},
+		{"Dyn:int", vfIntErr(13)},
+		{"Dyn:intZero", vfIntErr(0)},
+		{"Dyn:embedsNotFound", vfEmbedErr{dragonboat.ErrShardNotFound}},
+		{"Dyn:embedsNil", vfEmbedErrSafe()},
+		{"Dyn:isTimeout", &vfIsErr{dragonboat.ErrTimeout}},
+		{"Dyn:nested", vfNestedErr{op: "deep"}},
+		{"Dyn:statusNotFound", status.Error(codes.NotFound, "already a status")},
+		{"Dyn:statusUnavailable", vfStatusErr(codes.Unavailable)},
+		{"Dyn:emptyText", errors.New("")},
+		{"Dyn:longText", errors.New(long)},
+		{"Dyn:newlineText", errors.New("line one\nline two\ttab")},
+		{"Dyn:nonUTF8Text", errors.New("bad \xff\xfe bytes")},
+		{"Dyn:percentText", errors.New("disk 100% full, %d files, %s")},
+		{"Dyn:sliceWithPercent", vfSliceErr{"50%", "%v"}},
+	}
+}
+
+// a vfEmbedErr whose embedded error is a value struct (Error() stays total)
+func vfEmbedErrSafe() error { return vfEmbedErr{vfValErr{0, "embedded"}} }
+
+func vfStatusErr(c codes.Code) error { return status.New(c, "status made elsewhere").Err() }
+
+func vfTypeName(err error) string {
+	if err == nil {
+		return "nil"
+	}
+	return vfTok(fmt.Sprintf("%T", err))
+}
+
+// vfSameErr: identity of two error values without ==, which panics on two values of one uncomparable type
+func vfSameErr(a, b error) bool {
+	if a == nil || b == nil {
+		return a == nil && b == nil
+	}
+	if reflect.TypeOf(a) != reflect.TypeOf(b) {
+		return false
+	}
+	if reflect.TypeOf(a).Comparable() {
+		same := false
+		func() {
+			defer func() { _ = recover() }()
+			same = a == b
+		}()
+		if same {
+			return true
+		}
+	}
+	return a.Error() == b.Error()
 }
 
 func vfErrName(err error) string {
@@ -370,6 +575,9 @@ type vfHost struct {
 	fsess   map[string]*pb.Session     // facade sessions by api/shard
 	lsess   map[uint64]*client.Session // local sessions by shard
 	started []uint64
+	replica map[uint64]uint64 // replica id the next start of a shard id uses (default 1)
+	keep    map[uint64]bool   // the next start of this shard id restarts the stopped replica (state is replayed)
+	ev      *vfSysListener
 }
 
 const vfMaxInMem = 64 * 1024
@@ -380,20 +588,55 @@ type vfChanFactory struct{ chantrans.ChanTransportFactory }
 
 func (f *vfChanFactory) Validate(string) bool { return true }
 
-func vfNewNodeHost() (nh *dragonboat.NodeHost, err error) {
-	pan := vfGuard(func() { nh, err = vfNewNodeHost0() })
-	if pan != "" {
-		return nil, errors.New("panic: " + pan)
-	}
-	return nh, err
+// vfSysListener: the NodeHost's own notification that a stopped replica has been unloaded by every engine worker
+// (a shard id must not be started again before that: dragonboat panics "from two incarnations found")
+type vfSysListener struct {
+	mu       sync.Mutex
+	unloaded map[[2]uint64]int
 }
 
-func vfNewNodeHost0() (*dragonboat.NodeHost, error) {
+func (l *vfSysListener) NodeUnloaded(info raftio.NodeInfo) {
+	l.mu.Lock()
+	l.unloaded[[2]uint64{info.ShardID, info.ReplicaID}]++
+	l.mu.Unlock()
+}
+func (l *vfSysListener) unloadedCount(shard, replica uint64) int {
+	l.mu.Lock()
+	defer l.mu.Unlock()
+	return l.unloaded[[2]uint64{shard, replica}]
+}
+func (l *vfSysListener) NodeHostShuttingDown()                       {}
+func (l *vfSysListener) NodeDeleted(raftio.NodeInfo)                 {}
+func (l *vfSysListener) NodeReady(raftio.NodeInfo)                   {}
+func (l *vfSysListener) MembershipChanged(raftio.NodeInfo)           {}
+func (l *vfSysListener) ConnectionEstablished(raftio.ConnectionInfo) {}
+func (l *vfSysListener) ConnectionFailed(raftio.ConnectionInfo)      {}
+func (l *vfSysListener) SendSnapshotStarted(raftio.SnapshotInfo)     {}
+func (l *vfSysListener) SendSnapshotCompleted(raftio.SnapshotInfo)   {}
+func (l *vfSysListener) SendSnapshotAborted(raftio.SnapshotInfo)     {}
+func (l *vfSysListener) SnapshotReceived(raftio.SnapshotInfo)        {}
+func (l *vfSysListener) SnapshotRecovered(raftio.SnapshotInfo)       {}
+func (l *vfSysListener) SnapshotCreated(raftio.SnapshotInfo)         {}
+func (l *vfSysListener) SnapshotCompacted(raftio.SnapshotInfo)       {}
+func (l *vfSysListener) LogCompacted(raftio.EntryInfo)               {}
+func (l *vfSysListener) LogDBCompacted(raftio.EntryInfo)             {}
+
+func vfNewNodeHost() (nh *dragonboat.NodeHost, ev *vfSysListener, err error) {
+	ev = &vfSysListener{unloaded: map[[2]uint64]int{}}
+	pan := vfGuard(func() { nh, err = vfNewNodeHost0(ev) })
+	if pan != "" {
+		return nil, nil, errors.New("panic: " + pan)
+	}
+	return nh, ev, err
+}
+
+func vfNewNodeHost0(ev *vfSysListener) (*dragonboat.NodeHost, error) {
 	id := atomic.AddUint64(&vfNHSeq, 1)
 	nhc := config.NodeHostConfig{
-		NodeHostDir:    fmt.Sprintf("/vfnh%d", id),
-		RTTMillisecond: 2,
-		RaftAddress:    fmt.Sprintf("localhost:%d", 20000+id%40000),
+		NodeHostDir:         fmt.Sprintf("/vfnh%d", id),
+		RTTMillisecond:      2,
+		RaftAddress:         fmt.Sprintf("localhost:%d", 20000+id%40000),
+		SystemEventListener: ev,
 		Expert: config.ExpertConfig{
 			FS:               vfs.NewMem(),
 			LogDB:            config.GetTinyMemLogDBConfig(),
@@ -410,11 +653,20 @@ func (h *vfHost) ctx() (context.Context, context.CancelFunc) {
 }
 
 func (h *vfHost) start(shard uint64, typ int) string {
+	if h.replica == nil {
+		h.replica = map[uint64]uint64{}
+		h.keep = map[uint64]bool{}
+	}
+	rid := h.replica[shard]
+	if rid == 0 {
+		rid = 1
+		h.replica[shard] = 1
+	}
 	cfg := config.Config{
-		ReplicaID: 1, ShardID: shard, ElectionRTT: 10, HeartbeatRTT: 1, CheckQuorum: false,
+		ReplicaID: rid, ShardID: shard, ElectionRTT: 10, HeartbeatRTT: 1, CheckQuorum: false,
 		SnapshotEntries: 0, MaxInMemLogSize: vfMaxInMem,
 	}
-	members := map[uint64]dragonboat.Target{1: h.nh.RaftAddress()}
+	members := map[uint64]dragonboat.Target{rid: h.nh.RaftAddress()}
 	var err error
 	switch typ {
 	case 1:
@@ -430,7 +682,10 @@ func (h *vfHost) start(shard uint64, typ int) string {
 		return "err " + vfErrName(err)
 	}
 	h.types[shard] = typ
-	h.shadow[shard] = &vfCore{}
+	if !h.keep[shard] || h.shadow[shard] == nil {
+		h.shadow[shard] = &vfCore{}
+	}
+	h.keep[shard] = false
 	h.started = append(h.started, shard)
 	// wait until the single replica has elected itself (infrastructure, not under test)
 	deadline := time.Now().Add(20 * time.Second)
@@ -455,7 +710,128 @@ func (h *vfHost) start(shard uint64, typ int) string {
 			}
 		}
 	}
-	return fmt.Sprintf("ok %d", rep)
+	return fmt.Sprintf("ok %d %d", rep, rid)
+}
+
+// stop: NodeHost.StopShard, then what the mode says about the stopped replica's data / the next replica id.
+// Sessions of the stopped incarnation are forgotten by the harness (the facade objects are not told anything).
+func (h *vfHost) stop(shard uint64, mode string) string {
+	if h.replica == nil {
+		h.replica = map[uint64]uint64{}
+		h.keep = map[uint64]bool{}
+	}
+	if _, ok := h.types[shard]; !ok {
+		return "nothosted"
+	}
+	rid := h.replica[shard]
+	before := 0
+	if h.ev != nil {
+		before = h.ev.unloadedCount(shard, rid)
+	}
+	if err := h.nh.StopShard(shard); err != nil {
+		return "err " + vfErrName(err)
+	}
+	// wait until every engine worker has let go of the stopped replica (infrastructure, not under test)
+	if h.ev != nil {
+		deadline := time.Now().Add(20 * time.Second)
+		for h.ev.unloadedCount(shard, rid) == before {
+			if time.Now().After(deadline) {
+				return "infra notunloaded"
+			}
+			time.Sleep(time.Millisecond)
+		}
+	}
+	delete(h.types, shard)
+	delete(h.lsess, shard)
+	suffix := "/" + strconv.FormatUint(shard, 10)
+	for k := range h.fsess {
+		if strings.HasSuffix(k, suffix) {
+			delete(h.fsess, k)
+		}
+	}
+	switch mode {
+	case "d":
+		// returns once the stopped replica is offloaded and its data (bootstrap record, log) is gone
+		var err error
+		for tries := 0; tries < 50; tries++ {
+			ctx, cancel := context.WithTimeout(context.Background(), 10*time.Second)
+			err = h.nh.SyncRemoveData(ctx, shard, rid)
+			cancel()
+			if err != dragonboat.ErrShardNotStopped {
+				break
+			}
+			time.Sleep(5 * time.Millisecond)
+		}
+		if err != nil {
+			return "infra removedata " + vfErrName(err)
+		}
+		// (dragonboat refuses to start a removed replica id again: ErrReplicaRemoved)
+		h.replica[shard] = rid + 1
+		delete(h.shadow, shard)
+	case "n":
+		h.replica[shard] = rid + 1
+		delete(h.shadow, shard)
+	case "k":
+		h.keep[shard] = true
+	default:
+		return "badmode"
+	}
+	// the NodeHost no longer lists the shard
+	listed := 0
+	if nhi := h.nh.GetNodeHostInfo(dragonboat.DefaultNodeHostInfoOption); nhi != nil {
+		for _, ci := range nhi.ShardInfoList {
+			if ci.ShardID == shard {
+				listed = 1
+			}
+		}
+	}
+	return fmt.Sprintf("ok %d %d", listed, rid)
+}
+
+// lookupErr: a read whose query the state machine rejects with error value no. k of the alphabet. The local path
+// reports which value came back (name, dynamic type, whether it is the state machine's value), the facade path what
+// a peer would see.
+func (h *vfHost) lookupErr(api *NodehostAPI, shard uint64, path string, k int) string {
+	al := vfErrAlphabet()
+	if k < 0 || k >= len(al) {
+		return "badindex"
+	}
+	q := []byte("E:" + strconv.Itoa(k))
+	var err error
+	var got interface{}
+	pan := vfGuard(func() {
+		for tries := 0; tries < 4; tries++ {
+			ctx, cancel := h.ctx()
+			if path == "l" {
+				got, err = h.nh.SyncRead(ctx, shard, q)
+			} else {
+				var resp *pb.RaftResponse
+				resp, err = api.Read(ctx, &pb.RaftReadIndex{ShardId: shard, Data: q})
+				got = resp
+			}
+			cancel()
+			if err == nil || vfSameErr(err, al[k].err) || !vfInfra(err) {
+				break
+			}
+		}
+	})
+	if pan != "" {
+		return "panic " + pan
+	}
+	if err == nil {
+		return "ok " + vfTok(fmt.Sprint(got))
+	}
+	if path == "l" {
+		if vfSameErr(err, al[k].err) {
+			return fmt.Sprintf("err %s %s 1", al[k].name, vfTypeName(err))
+		}
+		return fmt.Sprintf("err %s %s 0", vfErrName(err), vfTypeName(err))
+	}
+	sameMsg := 0
+	if st, ok := status.FromError(err); ok && st.Message() == al[k].err.Error() {
+		sameMsg = 1
+	}
+	return fmt.Sprintf("err %s %s %s %d", vfCode(err), vfIsStatus(err), vfMsg(err), sameMsg)
 }
 
 func vfSessTok(s *pb.Session) string {
@@ -746,7 +1122,7 @@ func (h *vfHost) errop(api *NodehostAPI, shard uint64, path string, op string) s
 
 func vfRunBlock(b *vfBlock) {
 	emit := func(l vfLine, s string) { b.out = append(b.out, fmt.Sprintf("%d %s %s", l.no, l.tok[0], s)) }
-	nh, err := vfNewNodeHost()
+	nh, ev, err := vfNewNodeHost()
 	if err != nil {
 		for _, l := range b.lines {
 			emit(l, "infra nodehost "+vfTok(err.Error()))
@@ -754,18 +1130,31 @@ func vfRunBlock(b *vfBlock) {
 		return
 	}
 	h := &vfHost{nh: nh, apis: map[string]*NodehostAPI{}, types: map[uint64]int{}, shadow: map[uint64]*vfCore{},
-		fsess: map[string]*pb.Session{}, lsess: map[uint64]*client.Session{}}
+		fsess: map[string]*pb.Session{}, lsess: map[uint64]*client.Session{}, ev: ev}
 	defer func() {
 		if !h.closed {
 			vfGuard(func() { nh.Close() })
 		}
+		for _, x := range h.apis {
+			if x != nil {
+				y := x
+				vfGuard(func() { y.Stop() })
+			}
+		}
 	}()
 	u := func(s string) uint64 { v, _ := strconv.ParseUint(s, 10, 64); return v }
+	// a facade object: the public constructor (port chosen by the OS); nil = could not listen (infrastructure)
 	api := func(a string) *NodehostAPI {
 		if x, ok := h.apis[a]; ok {
 			return x
 		}
-		x := &NodehostAPI{nh: nh, supportCS: make(map[uint64]bool)}
+		var x *NodehostAPI
+		for tries := 0; tries < 5 && x == nil; tries++ {
+			vfGuard(func() { x = NewNodehostAPI("127.0.0.1:0", nh) })
+			if x == nil {
+				time.Sleep(20 * time.Millisecond)
+			}
+		}
 		h.apis[a] = x
 		return x
 	}
@@ -774,10 +1163,16 @@ func vfRunBlock(b *vfBlock) {
 		var res string
 		pan := vfGuard(func() {
 			switch t[0] {
+			case "A", "Q", "P", "R", "X", "E":
+				if api(t[1]) == nil {
+					res = "infra facade"
+					return
+				}
+			}
+			switch t[0] {
 			case "NH", "END":
 				res = "-"
 			case "A":
-				api(t[1])
 				res = "ok"
 			case "S":
 				typ, _ := strconv.Atoi(t[2])
@@ -794,6 +1189,11 @@ func vfRunBlock(b *vfBlock) {
 				res = h.read(api(t[1]), u(t[2]), t[3], vfUnhex(t[4]))
 			case "X":
 				res = h.errop(api(t[1]), u(t[2]), t[3], t[4])
+			case "K":
+				res = h.stop(u(t[1]), t[2])
+			case "E":
+				k, _ := strconv.Atoi(t[4])
+				res = h.lookupErr(api(t[1]), u(t[2]), t[3], k)
 			case "C":
 				// close facade sessions first (tracked ones are unregistered), then the NodeHost
 				keys := make([]string, 0, len(h.fsess))
@@ -899,7 +1299,7 @@ func vfFreeAddr() string {
 
 func vfWire(shard uint64, typ int) []string {
 	out := []string{}
-	nh, err := vfNewNodeHost()
+	nh, _, err := vfNewNodeHost()
 	if err != nil {
 		return []string{"infra nodehost " + vfTok(err.Error())}
 	}
@@ -1093,11 +1493,11 @@ func TestVerifFacade(t *testing.T) {
 		case "ERRS":
 			fmt.Fprintf(bw, "%d ERRS nil %v %v\n", l.no, grpcError(nil) == nil, GRPCError(nil) == nil)
 			for round := 0; round < 2; round++ {
-				for _, ne := range vfErrTable() {
+				for _, ne := range append(vfErrTable(), vfErrAlphabet()...) {
 					var e1, e2 error
 					pan := vfGuard(func() { e1 = grpcError(ne.err); e2 = GRPCError(ne.err) })
 					if pan != "" {
-						fmt.Fprintf(bw, "%d ERR %s panic %s\n", l.no, ne.name, pan)
+						fmt.Fprintf(bw, "%d ERR %s panic %s %s\n", l.no, ne.name, pan, vfTypeName(ne.err))
 						continue
 					}
 					if e1 == nil || e2 == nil {
@@ -1108,8 +1508,8 @@ func TestVerifFacade(t *testing.T) {
 					if st, ok := status.FromError(e1); ok && st.Message() == ne.err.Error() {
 						sameMsg = 1
 					}
-					fmt.Fprintf(bw, "%d ERR %s %d %d %s %s %d\n", l.no, ne.name, status.Code(e1), status.Code(e2),
-						vfIsStatus(e1), vfIsStatus(e2), sameMsg)
+					fmt.Fprintf(bw, "%d ERR %s %d %d %s %s %d %s\n", l.no, ne.name, status.Code(e1), status.Code(e2),
+						vfIsStatus(e1), vfIsStatus(e2), sameMsg, vfTypeName(ne.err))
 				}
 			}
 			fmt.Fprintf(bw, "%d CODES OK=%d Canceled=%d Unknown=%d InvalidArgument=%d DeadlineExceeded=%d NotFound=%d Unavailable=%d\n",
